@@ -52,6 +52,16 @@ def strategy(tier):
             rels += ["merge", "merge"]
         if k <= 2:
             rels += ["pad", "split"]
+        if p["repr"] == "sympy" and p["hermitian"] and k >= 2:
+            # exact Hermitian problems are also handed over as ONE symbolic matrix (Taylor expansion of the input): make
+            # sure mixed monomials x*y, x**2*y occur there, and prefer the relations that mix orders of different parameters
+            mixed = [o for o in __import__("itertools").product(range(3), repeat=k) if 2 <= sum(o) <= 3 and sum(1 for x in o if x) >= 2]
+            terms = dict(p["terms"])
+            first = sorted(s_ for s_ in terms if sum(order_key(s_)) == 1)
+            for o in draw(st.lists(st.sampled_from(mixed), min_size=1, max_size=2, unique=True)):
+                terms.setdefault(",".join(map(str, o)), terms[draw(st.sampled_from(first))])
+            p = dict(p, terms=terms)
+            rels = ["merge", "merge", "power", "permute", "scale"]
         rel = draw(st.sampled_from(rels))
         par = {}
         if rel == "scale":
